@@ -468,25 +468,24 @@ func check(p params, o *sx.Obs, x *vsched.Sched) kit.Result {
 func main() {
 	kit.Main("C29", "fault_enumeration", func(c *kit.Ctx) {
 		scs := []params{
-			{"answer", "never", "", 1},
-			{"silent", "after-tx", "", 1},
-			{"ack", "after-ack", "", 1},
-			{"ack", "after-tx", "", 1},
+			// largest schedule trees first: the units of one run are started in this order
+			{"silent", "after-tx", "", 2},
 			{"silent", "anytime", "", 1},
 			{"answer", "anytime", "", 1},
+			{"silent", "after-tx", "", 1},
 			{"silent", "after-tx", "after-kill", 1},
 			{"ack", "after-ack", "anytime", 1},
+			{"ack", "after-tx", "", 1},
+			{"ack", "after-ack", "", 1},
 			{"silent", "never", "anytime", 1},
-			{"silent", "after-tx", "", 2},
+			{"answer", "never", "", 1},
 		}
 		mk := func(p params) sx.Scenario[params] {
 			fb := 2
 			if c.Thorough() {
 				fb = 3
-			} else if p.Calls > 1 {
-				fb = 1 // quick: the two-call scenario is the largest tree; one non-default free choice keeps the tier inside its budget
 			}
-			return sx.Scenario[params]{Name: "reconnect", Params: p, MaxSteps: 20000, FreeBound: fb, Body: body, Check: check}
+			return sx.Scenario[params]{Name: "reconnect", Params: p, MaxSteps: 20000, FreeBound: fb, SplitAt: 1, Body: body, Check: check}
 		}
 		cscs := []cparams{{Resend: "silent"}, {Resend: "ack"}, {Resend: "silent", First: "plain"}, {Resend: "ack", First: "plain"}}
 		cmk := func(p cparams) sx.Scenario[cparams] {
@@ -508,8 +507,12 @@ func main() {
 		type unit struct{ sc, shard, shards int }
 		var units []unit
 		for i := range scs {
-			for k := 0; k < 4; k++ {
-				units = append(units, unit{i, k, 4})
+			n := 4
+			if scs[i].Calls > 1 || scs[i].Kill == "anytime" {
+				n = 12 // the largest schedule trees: spread them over more processes
+			}
+			for k := 0; k < n; k++ {
+				units = append(units, unit{i, k, n})
 			}
 		}
 		var cunits []unit
